@@ -7,14 +7,15 @@ EXTENDS PipeAbs, Sequences, TLC, Json
 VARIABLES l,          \* next line of the trace
           cap,        \* capacity of the current pipe (from the Reset line)
           wce, rce,   \* error passed to the pending writer / reader close call
-          hung        \* the driver's watchdog fired for this run
-vars == <<va, l, cap, wce, rce, hung>>
+          hung,       \* the driver's watchdog fired for this run
+          w0, r0      \* zero-length call in progress: the results that were legal at some moment since it began (see TNext)
+vars == <<va, l, cap, wce, rce, hung, w0, r0>>
 Trace == ndJsonDeserialize("trace.ndjson")
 
 Ev(e) == l <= Len(Trace) /\ Trace[l].e = e /\ l' = l + 1
 Keep == UNCHANGED <<cap, wce, rce, hung>>
 
-TInit == InitA /\ l = 1 /\ cap = Cap /\ wce = "EOF" /\ rce = "CLOSED" /\ hung = FALSE
+TInit == InitA /\ l = 1 /\ cap = Cap /\ wce = "EOF" /\ rce = "CLOSED" /\ hung = FALSE /\ w0 = {} /\ r0 = {}
 
 TReset == /\ Ev("Reset") /\ Trace[l].cap = Cap
           /\ blen' = 0 /\ werr' = "nil" /\ rerr' = "nil" /\ wst' = "idle" /\ wleft' = 0 /\ wn' = 0
@@ -29,6 +30,11 @@ Twwake  == Ev("wwake") /\ AWWake /\ Keep
 TWRet   == /\ Ev("WRet") /\ Keep
            /\ \/ wst = "call" /\ AWRet /\ wret' = [n |-> Trace[l].n, err |-> Trace[l].err]
               \/ wst = "idle" /\ wret = [n |-> Trace[l].n, err |-> Trace[l].err] /\ UNCHANGED va
+              \* a zero-length Write decides under the lock without a hook event and is logged only after it returned:
+              \* its result must have been the contract's answer at SOME moment between its begin and its return
+              \/ /\ wst = "call" /\ wleft = 0 /\ wn = 0 /\ [n |-> Trace[l].n, err |-> Trace[l].err] \in w0
+                 /\ wret' = [n |-> Trace[l].n, err |-> Trace[l].err] /\ wst' = "idle" /\ wleft' = 0
+                 /\ UNCHANGED <<blen, werr, rerr, wn, rst, rwant, rret>>
 TRBegin == Ev("RBegin") /\ ARBegin(Trace[l].k) /\ Keep
 Trsome  == Ev("rsome") /\ ARSome(Trace[l].n) /\ Keep
 Trpark  == Ev("rpark") /\ ARPark /\ Keep
@@ -36,6 +42,9 @@ Trwake  == Ev("rwake") /\ ARWake /\ Keep
 TRRet   == /\ Ev("RRet") /\ Keep /\ Trace[l].match = TRUE      \* content = next bytes of the stream
            /\ \/ rst = "call" /\ ARRet /\ rret' = [n |-> Trace[l].n, err |-> Trace[l].err]
               \/ rst = "idle" /\ rret = [n |-> Trace[l].n, err |-> Trace[l].err] /\ UNCHANGED va
+              \/ /\ rst = "call" /\ rwant = 0 /\ [n |-> Trace[l].n, err |-> Trace[l].err] \in r0      \* zero-length Read: as for Write
+                 /\ rret' = [n |-> Trace[l].n, err |-> Trace[l].err] /\ rst' = "idle" /\ rwant' = 0
+                 /\ UNCHANGED <<blen, werr, rerr, wst, wleft, wn, wret>>
 TWCloseCall == Ev("WCloseCall") /\ wce' = Trace[l].err /\ UNCHANGED <<va, cap, rce, hung>>
 TRCloseCall == Ev("RCloseCall") /\ rce' = Trace[l].err /\ UNCHANGED <<va, cap, wce, hung>>
 Twclose == Ev("wclose") /\ AWClose(wce) /\ Keep
@@ -47,7 +56,13 @@ TEnd == Ev("End") /\ hung' = Trace[l].hung /\ UNCHANGED <<va, cap, wce, rce>>
 TNext == \/ TReset \/ TWBegin \/ Twsome \/ Twpark \/ Twwake \/ TWRet
          \/ TRBegin \/ Trsome \/ Trpark \/ Trwake \/ TRRet
          \/ TWCloseCall \/ TRCloseCall \/ Twclose \/ Trclose \/ TBuffered \/ TAvailable \/ TEnd
-TSpec == TInit /\ [][TNext]_vars
+\* the contract's answer to a zero-length call in the state AFTER this event
+LegalW0N == IF werr' # "nil" THEN [n |-> 0, err |-> "CLOSED"] ELSE IF rerr' # "nil" THEN [n |-> 0, err |-> rerr'] ELSE [n |-> 0, err |-> "nil"]
+LegalR0N == IF rerr' # "nil" THEN [n |-> 0, err |-> "CLOSED"] ELSE IF blen' # 0 THEN [n |-> 0, err |-> "nil"] ELSE [n |-> 0, err |-> werr']
+TNextZ == /\ TNext
+          /\ w0' = IF wst' = "call" /\ wleft' = 0 /\ wn' = 0 THEN (IF wst = "call" THEN w0 ELSE {}) \cup {LegalW0N} ELSE {}
+          /\ r0' = IF rst' = "call" /\ rwant' = 0 THEN (IF rst = "call" THEN r0 ELSE {}) \cup {LegalR0N} ELSE {}
+TSpec == TInit /\ [][TNextZ]_vars
 
 \* evaluated after every event of every run
 ParkedOnlyIfBlocked == AParkedOnlyIfBlocked
